@@ -204,6 +204,8 @@ pub struct CodegenContext {
     loop_iterations: usize,
 
     test_elements: Vec<TestElement>,
+    /// While the body of the active test is being emitted: the address of the first byte it has emitted so far
+    active_test_entry: Option<Option<ProgramCounter>>,
 
     source_map: SourceMap,
 }
@@ -254,6 +256,7 @@ impl CodegenContext {
             macro_depth: 0,
             loop_iterations: 0,
             test_elements: vec![],
+            active_test_entry: None,
             source_map: SourceMap::default(),
         }
     }
@@ -538,6 +541,11 @@ impl CodegenContext {
                         .with_message(format!("segment '{}' is out of range", name))
                         .with_labels(vec![span.to_label()])
                         .into());
+                }
+                if let Some(entry @ None) = &mut self.active_test_entry {
+                    if !bytes.is_empty() {
+                        *entry = Some(segment.target_pc());
+                    }
                 }
                 self.source_map.add(
                     self.current_scope_nx,
@@ -1252,10 +1260,18 @@ impl CodegenContext {
                 if let Some(pc) = self.try_current_target_pc() {
                     if let Some(test_name) = self.evaluate_expression_as_string(id, true)? {
                         let test_name = IdentifierPath::from(test_name.as_str());
+                        // A test starts at its first instruction: the first byte its body emits, which is not the
+                        // address of the directive when a `* = ...` precedes the first instruction
+                        let mut pc = pc;
                         let should_add_test_symbol = match &self.options.active_test {
                             Some(active_test) => {
                                 if &self.current_scope.join(&test_name) == active_test {
-                                    self.emit_tokens(&block.inner)?;
+                                    self.active_test_entry = Some(None);
+                                    let result = self.emit_tokens(&block.inner);
+                                    if let Some(Some(entry)) = self.active_test_entry.take() {
+                                        pc = entry;
+                                    }
+                                    result?;
                                     true
                                 } else {
                                     false
